@@ -5,6 +5,7 @@ From Coq Require Import Lia.
 
 Section RenderKinds.
 Variable i0 : info.
+Variable wrap : bool.       (* render_as_readable: WITH pairs in parentheses *)
 
 Notation kinds l := (map kind_of l).
 
@@ -24,12 +25,12 @@ Proof.
   rewrite map_app. cbn [map]. rewrite IH by discriminate. reflexivity.
 Qed.
 
-Definition part (x : expr) : list rtok := if is_lit x then render_items false x else RLp :: render_items false x ++ [RRp].
+Definition part (x : expr) : list rtok := if is_lit x then render_items wrap x else RLp :: render_items wrap x ++ [RRp].
 
-Lemma kinds_prim : forall x, wf x = true -> kinds (tok_prim (to_prim i0 false x)) = part x.
+Lemma kinds_prim : forall x, wf x = true -> kinds (tok_prim (to_prim i0 wrap x)) = part x.
 Proof.
   induction x as [a|xs IH|xs IH] using expr_ind'; intro W.
-  - destruct a; reflexivity.
+  - destruct a as [s|l r]; unfold part; cbn [is_lit render_items atom_items to_prim]; unfold atom_prim; [reflexivity|]. destruct wrap; reflexivity.
   - cbn [wf] in W. apply andb_true_iff in W as [Wl Wx]. apply Nat.leb_le in Wl. rewrite forallb_forall in Wx.
     unfold part. cbn [is_lit to_prim tok_prim tok_or render_items]. cbn [map]. rewrite map_app. cbn [map]. f_equal. f_equal.
     rewrite kinds_list_and by (destruct xs; [cbn in Wl; lia | discriminate]). rewrite map_map. f_equal.
@@ -40,10 +41,10 @@ Proof.
     apply map_ext_in. intros x Hx. rewrite Forall_forall in IH. apply IH; [exact Hx | apply Wx; exact Hx].
 Qed.
 
-Theorem kinds_to_or e : wf e = true -> kinds (tok_or (to_or i0 false e)) = render_items false e.
+Theorem kinds_to_or e : wf e = true -> kinds (tok_or (to_or i0 wrap e)) = render_items wrap e.
 Proof.
   intro W. destruct e as [a|xs|xs].
-  - destruct a; reflexivity.
+  - destruct a as [s|l r]; cbn [to_or render_items atom_items]; unfold atom_prim; [reflexivity|]. destruct wrap; reflexivity.
   - cbn [wf] in W. apply andb_true_iff in W as [Wl Wx]. apply Nat.leb_le in Wl. rewrite forallb_forall in Wx.
     cbn [to_or tok_or render_items]. rewrite kinds_list_and by (destruct xs; [cbn in Wl; lia | discriminate]). rewrite map_map. f_equal.
     apply map_ext_in. intros x Hx. apply kinds_prim. apply Wx; exact Hx.
@@ -53,11 +54,11 @@ Proof.
 Qed.
 
 (* any token list whose types are the items of render(e) parses back to e, whatever strings and positions it carries *)
-Theorem render_kinds_roundtrip e (ts : list ptok) : wf e = true -> kinds ts = render_items false e -> bparse ts = POk e.
+Theorem render_kinds_roundtrip e (ts : list ptok) : wf e = true -> kinds ts = render_items wrap e -> bparse ts = POk e.
 Proof.
-  intros W H. apply (bparse_kinds (tok_or (to_or i0 false e)) ts e); [|apply render_tokens_roundtrip; exact W].
+  intros W H. apply (bparse_kinds (tok_or (to_or i0 wrap e)) ts e); [|apply render_tokens_roundtrip; exact W].
   rewrite <- (kinds_to_or e W) in H.
-  clear -H. revert ts H. induction (tok_or (to_or i0 false e)) as [|t l IH]; intros [|t' ts] H; try discriminate; [reflexivity|].
+  clear -H. revert ts H. induction (tok_or (to_or i0 wrap e)) as [|t l IH]; intros [|t' ts] H; try discriminate; [reflexivity|].
   cbn [map] in *. injection H as Ht Hl. f_equal; [|apply IH; exact Hl].
   unfold kind_of in Ht. destruct (pt t), (pt t'); try discriminate; try reflexivity. inversion Ht. reflexivity.
 Qed.
